@@ -24,7 +24,7 @@ RULE = ("seeded random frames in random row order (row id + 1-3 group columns of
 ASSUMPTIONS = [
     "dataiter.USE_NUMBA is switched off in this check: the partition logic is shared, and agreement of the Numba kernels is C08's subject",
     "group key equality: both missing, or both non-missing and == ; group order: per column ascending, missing last",
-    "0-row frames and group_by() without columns are a tagged class that is not judged (the statement quantifies over non-empty tuples of group columns; a 0-row aggregate has no group to summarise)",
+    "group_by() without columns is not judged (the statement quantifies over non-empty tuples of group columns); a 0-row frame has no group: no summary row, no member in any index set, and no error",
     "helper twins are not compared for mode/count_unique when missing values are kept (drop_na=False), see C07",
 ]
 REACH = {"quick": {"op:aggregate": 2000, "op:count": 500, "op:split": 500, "op:modify": 500, "na-key": 1000, "multi-col": 1000,
@@ -108,14 +108,41 @@ def execute(case):
     if case.get("edit") and nrow: res.cls("after-inplace-edit")
     for t in case["tags"]: res.cls("tag:" + t)
     if nrow == 0:
+        # no rows: no distinct key combination, so no summary row, no index set with a member, no modified row -- and no error,
+        # whether the summaries are helpers or arbitrary functions (a pipeline whose filter happened to keep nothing)
         res.cls("nrow:0")
-        res.skip("0-row frame: not judged")
         res.nontrivial = False
+        ctx0 = f"0-row frame, by={by}; spec {canon.short(spec, 600)}"
+        helper = None
+        if case.get("helper"):
+            hn, kw = case["helper"]
+            kws = dict(kw)
+            args = [kws.pop("index")] if hn == "nth" else ([kws.pop("q")] if hn == "quantile" else [])
+            helper = getattr(di, hn)("x", *args, **kws)
+        calls = [("aggregate-lambda", lambda: df.group_by(*by).aggregate(n=lambda x: x.nrow), list(by) + ["n"]),
+                 ("aggregate-count", lambda: df.group_by(*by).aggregate(k=di.count()), list(by) + ["k"]),
+                 ("count", lambda: df.count(*by), list(by) + ["n"]),
+                 ("modify", lambda: df.group_by(*by).modify(zz=lambda x: x._rid_), list(pre) + ["zz"])]
+        if helper is not None:
+            calls.append(("aggregate-helper+lambda", lambda: df.group_by(*by).aggregate(h=helper, n=lambda x: x.nrow), list(by) + ["h", "n"]))
+        for label, f, cols in calls:
+            try:
+                out = f()
+            except Exception as e:
+                res.violate(f"empty:{label}:raised:{exc_name(e)}", f"{label} raised {e!r}; {ctx0}")
+                continue
+            oc = canon.frame_cells(out)
+            if list(oc) != cols or any(len(v) for v in oc.values()):
+                res.violate(f"empty:{label}:wrong-result", f"{label} gave columns {list(oc)} with lengths {[len(v) for v in oc.values()]}, expected {cols} with no rows; {ctx0}")
+            res.count("empty-frame-calls")
         try:
-            getattr(df.group_by(*by), "aggregate")(n=di.count()) if op == "aggregate" else None
-            res.count("empty-aggregate-ok")
+            parts = df.split(*by)
+            if any(len(np.asarray(p_)) for p_ in parts):
+                res.violate("empty:split:non-empty-index-set", f"split gave {canon.short([np.asarray(p_).tolist() for p_ in parts])}; {ctx0}")
         except Exception as e:
-            res.count("empty-aggregate-raised:" + exc_name(e))
+            res.violate(f"empty:split:raised:{exc_name(e)}", f"split raised {e!r}; {ctx0}")
+        if canon.frame_cells(df) != pre:
+            res.violate("empty:mutated-input", ctx0)
         return res.dict()
     ctx = f"by={by}; spec {canon.short(spec, 1200)}"
     exp_rows = [groups[k] for k in gkeys]
